@@ -78,6 +78,33 @@ def main():
     ev2 = dict(ev, id=1, out=[0, 5])
     r = ctx.validate("Trace_Fn", "Trace_Fn.cfg", [ev, ev2])
     expect("Trace_Fn accepts the right interval and rejects a wrong one", 0 not in r and 1 in r)
+    # 5. whole runs (pipeline family): corrupt an output record, a report figure, an info row, a recorded stage
+    from harness import gen_run as GR
+    C = dict(fmt="fastq", paired=False, demux="none", q="20", cut1=[2], info=True, action="trim", times=1, overlap=3,
+             ads1=[dict(opt="a", seq="AGATCGGAAGAG", restr=None, name="ada")])
+    r1 = [("rd0x", "ACGTACGTACGTTTAGATCGGAAGAGCC", "IIIIIIIIIIIIIIIIIIIIIIIIII##"), ("rd1x", "TTGACCATGGTACC", "IIIIIIIIIII###")]
+    ev, sampler, _res = GR.observe_run(C, r1, [], os.path.join(ctx.scratch, "run"))
+    ev["id"] = 0
+    ev["want"] = ["report", "info"]
+
+    def variant(i, fn):
+        v = copy.deepcopy({k: x for k, x in ev.items() if k != "_blame"})
+        v["id"] = i
+        fn(v)
+        return v
+    vs = [ev,
+          variant(1, lambda v: v["reads"][0]["obs"]["o1"].update(seq=v["reads"][0]["obs"]["o1"]["seq"][:-1], qual=v["reads"][0]["obs"]["o1"]["qual"][:-1])),
+          variant(2, lambda v: v["report"].update(n_out=v["report"]["n_out"] + 1)),
+          variant(3, lambda v: v["reads"][0]["obs"]["rows"][0].update(rs=v["reads"][0]["obs"]["rows"][0]["rs"] + 1)),
+          variant(4, lambda v: [st.update(s1=st["s1"][:-1], q1=st["q1"][:-1]) for st in v["reads"][1]["obs"]["chain"] if st["l1"] == "qtrim"])]
+    out = GR.validate_runs(ctx, vs, {i: sampler for i in range(5)})
+    names = {i: {c for c, _k in out.get(i, [])} for i in range(5)}
+    expect("Trace_Run accepts the recorded run", not names[0] - {"Info.MiddleIsWhatWasAligned.CoordinatesOfShortenedReadOnInputRead"})
+    expect("Trace_Run rejects a shortened output record", {"Seq1", "Struct1"} & names[1])
+    expect("Trace_Run rejects a wrong report figure", any(c.startswith("Report.") for c in names[2]))
+    expect("Trace_Run rejects a shifted info-file coordinate", any(c.startswith("Info.") for c in names[3] - names[0]))
+    expect("Trace_Run!Blame names the stage whose recorded output was altered (qtrim)",
+           "qtrim" in set().union(*[set(x) for x in (vs[4].get("_blame") or {}).values()] or [set()]) and not (vs[0].get("_blame") or {}))
     import shutil
     shutil.rmtree(ctx.scratch, ignore_errors=True)
     print("SELFTEST", "PASSED" if ok else "FAILED")
